@@ -620,7 +620,12 @@ function describeIndexObjectMember(
 ): { docText?: string; member: string } {
   if (standsAlone) {
     // the only member: a mapped type, which can also carry the optional mark
-    return describeObjectMember(ctx, `[K in ${describeTypeExpr(ctx, key)}]`, value);
+    // the parameter must not capture a named type of the same name that the value refers to
+    let param = "K";
+    for (let n = 1; Object.prototype.hasOwnProperty.call(ctx.refCounts, param); n++) {
+      param = `K${n}`;
+    }
+    return describeObjectMember(ctx, `[${param} in ${describeTypeExpr(ctx, key)}]`, value);
   }
   // next to other members only an index signature is allowed (a mapped type member is not), and an
   // index signature cannot be optional: spell the optional value type out
